@@ -21,7 +21,7 @@ HERE = os.path.dirname(os.path.abspath(__file__))
 sys.path.insert(0, HERE)
 
 # fields (same numbers as Model/FreshModel.v)
-F_DEK, F_MAC, F_NONCE, F_PAD, F_HPAD, F_FILL, F_IV, F_KEY, F_CTR, F_KEY1, F_KEY2, F_BCTR, F_KKEY, F_KIV, F_SW = range(1, 16)
+F_DEK, F_MAC, F_NONCE, F_PAD, F_HPAD, F_FILL, F_IV, F_KEY, F_CTR, F_KEY1, F_KEY2, F_BCTR, F_KKEY, F_KIV, F_SW, F_KEK = range(1, 17)
 MBI_FAMILIES = ["mimxrt533s", "mimxrt555s", "mimxrt595s", "mimxrt685s"]
 
 
@@ -104,6 +104,9 @@ def child_main():
     work = payload["work"]
     os.makedirs(work, exist_ok=True)
     objs = {}
+    configs = {}
+    shared = payload["shared"]
+    os.makedirs(shared, exist_ok=True)
     next_obj = [payload["obj_base"]]
     kek32 = bytes(range(32))
     kek16 = bytes(range(16, 32))
@@ -138,6 +141,22 @@ def child_main():
         prdb = aes_cbc_dec(kkey, kiv, hdr_bytes[0x80:0x80 + 0x100])
         return kkey, kiv, prdb[32:48][::-1]      # the counter is stored byte-reversed
 
+    # ---------------------------------------------------------------- config objects (kept alive, reused by op 4)
+    cur = {"cfg": None, "made": None, "before": None}
+
+    def snap(c):
+        if isinstance(c, dict):
+            return json.dumps(c, sort_keys=True, default=repr)
+        # HabConfig (get_dek_from_config): the command parameters are what the builder reads
+        return repr([(x.index, sorted((str(k), repr(v)) for k, v in dict(x.params).items())) for x in c.commands])
+
+    def config(make):
+        """the configuration object of this construction: the one kept from an earlier op (reuse) or a new one"""
+        c = cur["cfg"] if cur["cfg"] is not None else make()
+        cur["made"] = c
+        cur["before"] = snap(c)
+        return c
+
     # ---------------------------------------------------------------- constructors
     def adv_params(a):
         from spsdk.sbfile.sb2.images import SBV2xAdvancedParams
@@ -164,17 +183,21 @@ def child_main():
             cfg["sections"] = None
             cache["sb21cfg"] = cfg
             cache["sbkek"] = bytes.fromhex(open(os.path.join(data_dir, "sb_sources/keys/SBkek_PUF.txt")).read().strip())
-        c = dict(cache["sb21cfg"])
-        c["options"] = dict(c["options"])
-        values = "0xaabbccdd" if flag == 2 else "0x00112233,0x44556677,0x8899aabb,0xccddeeff"
-        c["sections"] = [{"commands": [{"load": {"address": 0x1000, "values": values}}]}]
-        for name, x, n in (("dek", a[0], 32), ("mac", a[1], 32), ("nonce", a[2], 16)):
-            if x == 1:
-                c["options"][name] = ""
-            elif x >= 2:
-                c["options"][name] = given(x - 2, n).hex()
-        if a[3] >= 2:
-            c["options"]["zeroPadding"] = True
+
+        def make():
+            c = dict(cache["sb21cfg"])
+            c["options"] = dict(c["options"])
+            values = "0xaabbccdd" if flag == 2 else "0x00112233,0x44556677,0x8899aabb,0xccddeeff"
+            c["sections"] = [{"commands": [{"load": {"address": 0x1000, "values": values}}]}]
+            for name, x, n in (("dek", a[0], 32), ("mac", a[1], 32), ("nonce", a[2], 16)):
+                if x == 1:
+                    c["options"][name] = ""
+                elif x >= 2:
+                    c["options"][name] = given(x - 2, n).hex()
+            if a[3] >= 2:
+                c["options"]["zeroPadding"] = True
+            return c
+        c = config(make)
         o = BootImageV21.load_from_config(c, rkth_out_path=os.path.join(work, "hash.bin"), search_paths=[data_dir])
         data = o.export()
         e = sb_export_obs(data, cache["sbkek"])
@@ -197,13 +220,17 @@ def child_main():
                     cfg[k] = cfg[k].replace("\\", "/")
             cache["mbicfg"] = cfg
             cache["mbikey"] = open(os.path.join(data_dir, "workspace/keys/userkey.txt")).read().strip()
-        c = dict(cache["mbicfg"])
-        c["family"] = fam
-        c.pop("CtrInitVector", None)
-        if a[0] == 1:
-            c["CtrInitVector"] = ""
-        elif a[0] >= 2:
-            c["CtrInitVector"] = "0x" + given(a[0] - 2, 16).hex()
+
+        def make():
+            c = dict(cache["mbicfg"])
+            c["family"] = fam
+            c.pop("CtrInitVector", None)
+            if a[0] == 1:
+                c["CtrInitVector"] = ""
+            elif a[0] >= 2:
+                c["CtrInitVector"] = "0x" + given(a[0] - 2, 16).hex()
+            return c
+        c = config(make)
         o = get_mbi_class(c)()
         o.load_from_config(c, search_paths=[data_dir])
         data = o.export()
@@ -267,8 +294,8 @@ def child_main():
         engines = [{"bee_cfg": {"user_key": "" if nokey else ukeys[i].hex(),
                                 "protected_region": [{"start_address": 0x60001000 + 0x10000 * i, "length": 0x1000,
                                                       "protected_level": 0}]}} for i in range(2)]
-        cfg = {"input_binary": path, "engine_selection": ["engine0", "engine1", "both"][flag % 3],
-               "base_address": 0x60001000, "bee_engine": engines}
+        cfg = config(lambda: {"input_binary": path, "engine_selection": ["engine0", "engine1", "both"][flag % 3],
+                              "base_address": 0x60001000, "bee_engine": engines})
         o = BeeNxp.load_from_config(cfg)
         obs = []
         for idx, hb in enumerate(o.export_headers()):
@@ -294,27 +321,36 @@ def child_main():
         from spsdk.image.hab.segments import CsfHabSegment
         from spsdk.image.hab.commands.commands_enum import SecCommand
         length = [128, 192, 256][flag % 4 % 3]
-        reuse = flag >= 4
-        name = f"dek_{next_obj[0]}.bin"
-        opts = [{"SecretKey_Name": name}, {"SecretKey_Length": length}]
+        reuse = (flag // 4) % 2 == 1
+        # flag >= 8: one fixed file name in a directory shared by all interpreters of the session (the key file of an
+        # earlier build is already there); otherwise the name is kept with the configuration object
+        wdir = shared if flag >= 8 else work
+
+        def make():
+            name = "dek_fixed.bin" if flag >= 8 else f"dek_{next_obj[0]}.bin"
+            opts = [{"SecretKey_Name": name}, {"SecretKey_Length": length}]
+            if reuse:
+                opts.append({"SecretKey_ReuseDek": 1})
+            return hab_config([{"section_id": SecCommand.INSTALL_SECRET_KEY.tag, "options": opts}])
+        cfg = config(make)
+        name = cfg.commands.get_command_params(SecCommand.INSTALL_SECRET_KEY)["SecretKey_Name"]
+        existed = os.path.exists(os.path.join(wdir, name))
         if reuse:
-            with open(os.path.join(work, name), "wb") as f:
+            with open(os.path.join(wdir, name), "wb") as f:
                 f.write(given(1, length // 8))
-            opts.append({"SecretKey_ReuseDek": 1})
-        cfg = hab_config([{"section_id": SecCommand.INSTALL_SECRET_KEY.tag, "options": opts}])
-        dek = CsfHabSegment.get_dek_from_config(cfg, search_paths=[work])
-        same = open(os.path.join(work, name), "rb").read() == dek
-        return dek, [[F_DEK, dek]], {"export_consistent": same}
+        dek = CsfHabSegment.get_dek_from_config(cfg, search_paths=[wdir])
+        same = open(os.path.join(wdir, name), "rb").read() == dek
+        return dek, [[F_DEK, dek]], {"export_consistent": same, "key_file_existed": existed}
 
     def new_habcfg(flag, a):
         import shutil
         import copy
         from spsdk.image.hab.hab_container import HabContainer
         src = os.path.join(data_dir, "hab/export")
-        w = os.path.join(work, "hab")
+        w = os.path.join(shared, "hab")       # one directory for all interpreters of the session: key files persist
         if "habcfg" not in cache:
-            shutil.rmtree(w, ignore_errors=True)
-            shutil.copytree(os.path.join(src, "rt1165_semcnand_encrypted_random"), w)
+            if not os.path.isdir(w):
+                shutil.copytree(os.path.join(src, "rt1165_semcnand_encrypted_random"), w)
             os.makedirs(os.path.join(w, "gen_hab_encrypt"), exist_ok=True)
             state["obs"] = True
             try:
@@ -322,32 +358,81 @@ def child_main():
                     os.path.join(w, "config.bd"), [os.path.join(w, "evkmimxrt1064_iled_blinky_SDRAM.s19")])
             finally:
                 state["obs"] = False
-        cfg = copy.deepcopy(cache["habcfg"])
-        dek_rel = None
-        for s in cfg["sections"]:
-            names = [k for d in s["options"] for k in d]
-            if "SecretKey_Name" in names:
-                dek_rel = [d["SecretKey_Name"] for d in s["options"] if "SecretKey_Name" in d][0]
-                if flag & 1:
-                    with open(os.path.join(w, dek_rel), "wb") as f:
-                        f.write(given(1, 32))
+
+        def make():
+            cfg = copy.deepcopy(cache["habcfg"])
+            for s in cfg["sections"]:
+                names = [k for d in s["options"] for k in d]
+                if "SecretKey_Name" in names and flag & 1:
                     s["options"].append({"SecretKey_ReuseDek": 1})
-            if "Decrypt_MacBytes" in names and flag & 2:
-                with open(os.path.join(w, "nonce.bin"), "wb") as f:
-                    f.write(given(2, 13))
-                s["options"].append({"Decrypt_Nonce": "nonce.bin"})
+                if "Decrypt_MacBytes" in names and flag & 2:
+                    s["options"].append({"Decrypt_Nonce": "nonce.bin"})
+            return cfg
+        cfg = config(make)
+        dek_rel = [d["SecretKey_Name"] for s in cfg["sections"] for d in s["options"] if "SecretKey_Name" in d][0]
+        existed = os.path.exists(os.path.join(w, dek_rel))
+        if flag & 1:
+            with open(os.path.join(w, dek_rel), "wb") as f:
+                f.write(given(1, 32))
+        if flag & 2:
+            with open(os.path.join(w, "nonce.bin"), "wb") as f:
+                f.write(given(2, 13))
         o = HabContainer.load_from_config(cfg, search_paths=[w, src])
         data = o.export()
         csf = o.csf_segment
         same = open(os.path.join(w, dek_rel), "rb").read() == csf.dek and data.find(csf.nonce) >= 0
-        return o, [[F_DEK, csf.dek], [F_NONCE, csf.nonce]], {"export_consistent": same}
+        return o, [[F_DEK, csf.dek], [F_NONCE, csf.nonce]], {"export_consistent": same, "key_file_existed": existed}
 
     def new_habnonce(flag, a):
         from spsdk.image.hab.segments import CsfHabSegment
         n = CsfHabSegment.generate_nonce(bytes(100 if flag == 0 else 0x10000))
         return n, [[F_NONCE, n]], {}
 
-    NEW = {1: new_sb20, 2: new_sb21, 3: new_sb21cfg, 4: new_mbi, 5: new_otfad, 6: new_iee, 7: new_prdb, 8: new_kib,
+    def cfg_hex(a, n):
+        v = val(a, n)
+        return "0x" + v.hex() if v else ""
+
+    def new_ieecfg(flag, a):
+        from spsdk.utils.crypto.iee import IeeNxp
+        key_size, mode_, l1, l2 = [("CTR128XTS256", "AesXTS", 16, 16), ("CTR256XTS512", "AesXTS", 32, 32),
+                                   ("CTR256XTS512", "AesCTRWAddress", 32, 16)][flag % 3]
+        cfg = config(lambda: {"family": "mimxrt1176", "keyblob_address": 0x30000000,
+                              "key_blobs": [{"region_lock": False, "aes_mode": mode_, "key_size": key_size, "page_offset": 0,
+                                             "key1": cfg_hex(a[0], l1), "key2": cfg_hex(a[1], l2),
+                                             "start_address": 0x30001000, "end_address": 0x30008000}]})
+        o = IeeNxp.load_from_config(cfg, config_dir=work)
+        pd = o.get_key_blobs()
+        k1, k2 = pd[16:16 + l1], pd[48:48 + l2]
+        return o, [[F_KEY1, k1], [F_KEY2, k2]], {"export_consistent": k1 == o[0].key1 and k2 == o[0].key2}
+
+    def new_otfadcfg(flag, a):
+        from spsdk.utils.crypto.otfad import OtfadNxp
+        cfg = config(lambda: {"family": "mimxrt1176", "kek": cfg_hex(a[0], 16), "otfad_table_address": 0x30000000,
+                              "key_blobs": [{"aes_key": cfg_hex(a[1], 16), "aes_ctr": cfg_hex(a[2], 8),
+                                             "start_address": 0x30001000, "end_address": 0x30001FFF}]})
+        o = OtfadNxp.load_from_config(cfg, config_dir=work)
+        pd = o.get_key_blobs()
+        return o, [[F_KEK, o.kek], [F_KEY, pd[0:16]], [F_CTR, pd[16:24]]], \
+            {"export_consistent": pd[0:16] == o[0].key and pd[16:24] == o[0].ctr_init_vector}
+
+    def new_advparams(flag, a):
+        from spsdk.sbfile.sb2.images import BootImageV21
+
+        def make():
+            c = {}
+            for name, x, n in (("dek", a[0], 32), ("mac", a[1], 32), ("nonce", a[2], 16)):
+                if x == 1:
+                    c[name] = ""
+                elif x >= 2:
+                    c[name] = given(x - 2, n).hex()
+            if a[3] >= 2:
+                c["zeroPadding"] = True
+            return c
+        c = config(make)
+        o = BootImageV21.get_advanced_params(c)
+        return o, [[F_DEK, o.dek], [F_MAC, o.mac], [F_NONCE, o.nonce], [F_PAD, o.padding]], {}
+
+    NEW = {14: new_ieecfg, 15: new_otfadcfg, 16: new_advparams, 1: new_sb20, 2: new_sb21, 3: new_sb21cfg, 4: new_mbi, 5: new_otfad, 6: new_iee, 7: new_prdb, 8: new_kib,
            9: new_hdr, 10: new_beecfg, 11: new_habdek, 12: new_habcfg, 13: new_habnonce}
 
     # ---------------------------------------------------------------- actions
@@ -392,10 +477,32 @@ def child_main():
             if k not in NEW:
                 res["st"] = 9
             else:
+                cur.update(cfg=None, made=None, before=None)
                 r = guarded(lambda: NEW[k](flag, a), seconds=60)
                 if r[0] == "ok":
                     o, obs, extra = r[1]
                     objs[next_obj[0]] = (k, o)
+                    if cur["made"] is not None:
+                        configs[next_obj[0]] = (k, flag, a, cur["made"])
+                        extra = dict(extra, cfg_changed=snap(cur["made"]) != cur["before"])
+                    next_obj[0] += 1
+                    res["obs"] = [[f, bytes(v).hex() if v is not None else None] for f, v in obs]
+                    res["extra"] = extra
+                else:
+                    res["st"] = r[1]
+                    res["extra"] = {"exc": r[2] if len(r) > 2 else ""}
+        elif tag == 4:        # build again from the SAME configuration object as artifact op[1]
+            if op[1] not in configs:
+                res["st"] = 9
+            else:
+                k, flag, a, cfgobj = configs[op[1]]
+                cur.update(cfg=cfgobj, made=None, before=None)
+                r = guarded(lambda: NEW[k](flag, a), seconds=60)
+                if r[0] == "ok":
+                    o, obs, extra = r[1]
+                    objs[next_obj[0]] = (k, o)
+                    configs[next_obj[0]] = (k, flag, a, cfgobj)
+                    extra = dict(extra, cfg_changed=snap(cfgobj) != cur["before"], same_config_object=cur["made"] is cfgobj)
                     next_obj[0] += 1
                     res["obs"] = [[f, bytes(v).hex() if v is not None else None] for f, v in obs]
                     res["extra"] = extra
@@ -432,7 +539,8 @@ def run_session(sess, common):
     for si, ops in enumerate(sess["segments"]):
         payload = {"mode": sess["mode"], "start_index": idx if sess["mode"] == "count" else idx, "obj_base": obj_base, "ops": ops,
                    "modules": common["modules"], "data": common["data"],
-                   "work": os.path.join(common["work"], f"s{sess['id']}_{si}")}
+                   "work": os.path.join(common["work"], f"s{sess['id']}_{si}"),
+                   "shared": os.path.join(common["work"], f"s{sess['id']}_shared")}
         p = subprocess.run([sys.executable, os.path.abspath(__file__), "--child"], input=json.dumps(payload),
                            stdout=subprocess.PIPE, stderr=subprocess.PIPE, text=True, timeout=900, cwd=common["work"])
         if p.returncode != 0:
